@@ -63,9 +63,12 @@ def run_batch(traces, cfg="TraceStreamTrace"):
     if res.violated:
         return res, None
     rej = set()
-    m2 = re.search(r'<<"REJECTED", \{([^}]*)\}>>', res.stdout)
+    m2 = re.search(r'"REJECTED",\s*\{([^}]*)\}', res.stdout)
     if m2:
         rej = {int(x) for x in m2.group(1).split(",") if x.strip()}
+    ma = re.search(r'"ACCEPTED",\s*(\d+),\s*(\d+)', res.stdout)
+    if ma and int(ma.group(1)) + len(rej) != int(ma.group(2)):
+        raise core.MachineryError(f"batch verdict inconsistent: accepted {ma.group(1)} + rejected {len(rej)} != {ma.group(2)}")
     if "ACCEPTED" not in res.stdout and "MATCHED" not in res.stdout:
         raise core.MachineryError("trace validation produced no verdict:\n" + res.stdout[-1500:])
     return res, rej
